@@ -6,6 +6,7 @@ import WtfModel.Model.Tfidf
 import WtfModel.Model.Boosts
 import WtfModel.Model.GoSort
 import WtfModel.Gen.Constants
+import WtfModel.Gen.LegacyScore
 import Driver.Util
 
 /-!
@@ -99,7 +100,7 @@ def tuning (d : DS) : Tuning Float :=
   -- the re-ranker is the MODEL's TF-IDF (Model/Tfidf.lean) whenever the real database has a searcher;
   -- the oracle `tf` line only says whether one exists (and is compared separately by the `tfidf` op)
   let base := modelledTuning (fun _ df => ((d.idf.find? (·.1 == df)).map (·.2)).getD 0.0) d.host d.ri (fun _ => d.nq) fz
-    Float.sqrt 0.01 (if d.tf.isSome then d.tfIdx else none) d.nlpCmds
+    Float.sqrt (Wtf.ScoreOps.ofQ Wtf.Gen.LegacyScore.tfidfMinSim) (if d.tf.isSome then d.tfIdx else none) d.nlpCmds
   { base with
     nlp := fun nq => match d.cache with
       | some c => if c.nq == nq then c.out else base.nlp nq
@@ -107,7 +108,7 @@ def tuning (d : DS) : Tuning Float :=
     -- `Tfidf.search … d.nlpCmds.length`: the limit is the number of commands; the case "searcher exists but the model index
     -- was not built" arises only for searches without NLP, which never consult the re-ranker
     tfidf := match d.tf, d.tfIdx with
-      | some _, some idx => some (fun nq => Tfidf.search d.ri Float.sqrt 0.01 idx nq d.db.size)
+      | some _, some idx => some (fun nq => Tfidf.search d.ri Float.sqrt (Wtf.ScoreOps.ofQ Wtf.Gen.LegacyScore.tfidfMinSim) idx nq d.db.size)
       | some l, none => some (fun _ => l)
       | none, _ => none }
 
@@ -218,7 +219,7 @@ def step (d : DS) (l : String) : DS × String :=
     | some q =>
       let d := ensureIdx d
       let r := match d.tfIdx with
-        | some idx => Tfidf.search d.ri Float.sqrt 0.01 idx q d.db.size
+        | some idx => Tfidf.search d.ri Float.sqrt (Wtf.ScoreOps.ofQ Wtf.Gen.LegacyScore.tfidfMinSim) idx q d.db.size
         | none => []
       (d, r.foldl (fun acc (i, s) => acc ++ s!" {i} {fmtFloat s}") s!"tf {r.length}")
     | none => (d, "bad-op")
